@@ -8,6 +8,7 @@ reference only contributes the differentiation rule:
     R1    = (4 D(h/2) - D(h)) / 3 ,  R2 = (4 D(h/4) - D(h/2)) / 3
     R     = (16 R2 - R1) / 15                               two Richardson levels
     err   = |R - R2| + roundoff,  roundoff = 64 eps max|f| / (h/4)
+    and finally err = max(err, |R(h) - R(h/3)|) from a second, un-nested extrapolation
 
 `richardson_gradient` retries with smaller steps when the stencil leaves the
 region where f is finite (near the edge of a support) or when the error estimate
@@ -76,6 +77,13 @@ def richardson_gradient(f, x, h0=1e-3, max_shrink=14, good_rel=1e-7):
             h /= 8.0
             if h < 1e-11 * max(1.0, abs(x[i])):
                 break
+        if best is not None:
+            # a-posteriori confirmation with an un-nested step (h/3): two independent extrapolations must agree;
+            # their difference bounds the error of the worse one
+            r = _component(f, x, i, best[2] / 3.0, abs(f0))
+            if r is not None:
+                diff = abs(r[0] - best[0])
+                best = (r[0], max(r[1], diff), best[2] / 3.0) if r[1] <= best[1] else (best[0], max(best[1], diff), best[2])
         if best is None:
             # the point sits on the edge of the region where f is finite: one-sided derivative
             for sign in (+1.0, -1.0):
